@@ -171,8 +171,14 @@ class Network:
         :param wait_until_running: bool
         """
         self._logger.info("Starting network with name {}".format(self.name))
-        for p in self.processes:
+        for i, p in enumerate(self.processes):
             if not p.is_alive():
+                if p.pid is not None:
+                    # This process was started before and has ended (e.g. by stop()). A process object can
+                    # only be started once, so replace it (order in self.processes: vnode, qnodeos per node).
+                    target = start_vnode if i % 2 == 0 else start_qnodeos
+                    p = mp.Process(target=target, args=(self.nodes[i // 2], self.name, get_log_level()), name=p.name)
+                    self.processes[i] = p
                 self._logger.debug("Starting process {}".format(p.name))
                 p.deamon = True
                 p.start()
